@@ -50,6 +50,9 @@ mod rtx;
 mod updater;
 mod utxo_entry;
 
+#[cfg(feature = "verif")]
+pub mod verif;
+
 #[cfg(test)]
 pub(crate) mod testing;
 
